@@ -59,6 +59,29 @@ def gen_array(rng):
 ARRAY_FIELDS = ("arr", "X", "list")      # in the regular profile a field name has one type
 
 
+def gen_shadow(rng):
+    """A class is first defined `class X : B` while B is the class of an outer scope; a later load gives the enclosing class a B of
+    its own and re-opens `class X : B` behind it: the base named B is now that inner class (inheritsFrom, inherited values)."""
+    B, G, X = rng.sample(["A", "B", "Cc", "Base", "Sub"], 3)
+    f = rng.choice(["x", "y", "txt"])
+    v1, v2 = ["N", rng.randint(1, 50), "d"], ["N", rng.randint(51, 99), "d"]
+    own = [["F", "X", ["N", rng.randint(0, 9), "d"]]] if rng.random() < 0.5 else []
+    outer = ["C", B, None, [["F", f, v1]], {"decl": False}]
+    first = ["C", G, None, [["C", X, B, list(own), {"decl": False}]], {"decl": False}]
+    inner_b = ["C", B, None, [["F", f, v2]], {"decl": False}]
+    reopen = ["C", X, B, [["F", "list", ["L", []]]] if rng.random() < 0.4 else [], {"decl": False}]
+    if rng.random() < 0.6:
+        second = [["C", G, None, [inner_b, reopen], {"decl": False}]]
+    else:                     # the inner B arrives in a load of its own, the re-open in a third one
+        second = [["C", G, None, [inner_b], {"decl": False}]]
+    loads = [[outer, first] if rng.random() < 0.7 else [first, outer], second]
+    if len(second[0][3]) == 1:
+        loads.append([["C", G, None, [reopen], {"decl": False}]])
+    if loads[0][0] is first:   # the base must exist when X is first defined
+        loads[0] = [outer, first]
+    return loads, [B, G, X, f, "X", "list"]
+
+
 def gen_case(rng, profile):
     """profile 'regular' keeps to what the property text describes: class and field names are disjoint, a field
     name has one type, a base is a class visible from the enclosing classes, a re-opened class keeps its base,
@@ -547,6 +570,9 @@ def main(replay=None):
         for i in range(nwild):
             loads, names = gen_case(rng, "wild")
             cases.append(Case("wild", loads, names, None, rng))
+        for i in range(300 if thorough else 40):
+            loads, names = gen_shadow(rng)
+            cases.append(Case("shadow", loads, names, None, rng))
 
     ilines = [c.impl_line() for c in cases]
     rc, impl, err = V.run_lines_parallel([himpl], ilines, timeout=3000)
